@@ -63,26 +63,28 @@ type Sentinel struct {
 }
 
 type Deploy struct {
-	mu        sync.Mutex
-	Name      string // master set name
-	Nodes     map[string]*Node
-	Sentinels map[string]*Sentinel
-	Order     []string
-	SOrder    []string
+	mu         sync.Mutex
+	Name       string // master set name
+	Nodes      map[string]*Node
+	Sentinels  map[string]*Sentinel
+	Order      []string
+	SOrder     []string
 	MasterAddr string
-	SDown     map[string]bool // replicas reported with s-down-time
-	Script    map[string][]Step
-	Arrived   map[string]int
-	seq       atomic.Int64
-	arr       []*Arrival
-	RoleAsked []RoleRec // ROLE requests served
-	Dials     []string
+	SDown      map[string]bool // replicas reported with s-down-time
+	Script     map[string][]Step
+	Arrived    map[string]int
+	seq        atomic.Int64
+	arr        []*Arrival
+	RoleAsked  []RoleRec // ROLE requests served
+	Dials      []string
 }
 
 type RoleRec struct {
-	Seq  int64
-	Node string
-	Role string
+	Seq    int64
+	Node   string
+	Role   string // the node's role at that moment
+	Answer string // what the reply said: its first element, "-error", or "?" (malformed override)
+	Conn   int
 }
 
 func New(name string) *Deploy {
@@ -106,8 +108,22 @@ func (d *Deploy) AddNode(addr, role string) *Node {
 	}
 	d.mu.Unlock()
 	s.Handle("ROLE", func(c *fr.Conn, a []string) fr.V {
+		answer := s.Role
+		if answer != "master" {
+			answer = "slave"
+		}
+		if v := n.RoleV; v != nil {
+			switch {
+			case v.T == '-':
+				answer = "-error"
+			case (v.T == '*' || v.T == '~') && len(v.A) > 0 && (v.A[0].T == '$' || v.A[0].T == '+'):
+				answer = v.A[0].S
+			default:
+				answer = "?"
+			}
+		}
 		d.mu.Lock()
-		d.RoleAsked = append(d.RoleAsked, RoleRec{Seq: d.seq.Add(1), Node: addr, Role: s.Role})
+		d.RoleAsked = append(d.RoleAsked, RoleRec{Seq: d.seq.Add(1), Node: addr, Role: s.Role, Answer: answer, Conn: c.ID})
 		master := d.MasterAddr
 		d.mu.Unlock()
 		if n.RoleV != nil {
@@ -358,6 +374,25 @@ func (d *Deploy) SetDown(addr string, down bool) {
 		sn.Down = down
 	}
 	d.mu.Unlock()
+}
+
+// SetSDown marks a replica as subjectively down in the sentinels' SENTINEL REPLICAS answers.
+func (d *Deploy) SetSDown(addr string, down bool) {
+	d.mu.Lock()
+	d.SDown[addr] = down
+	d.mu.Unlock()
+}
+
+// SetRoleV overrides (nil: restores) the ROLE reply of a data node.
+func (d *Deploy) SetRoleV(addr string, v *fr.V) {
+	d.mu.Lock()
+	n := d.Nodes[addr]
+	d.mu.Unlock()
+	if n != nil {
+		n.S.Lock()
+		n.RoleV = v
+		n.S.Unlock()
+	}
 }
 
 func (d *Deploy) Arrivals() []Arrival {
